@@ -53,7 +53,8 @@ UnitPool == { U(<<101>>, 0), U(<<>>, 1), U(<<101>>, 300), U(<<9, 0, 0, 3>>, 0), 
 UnitPool3 == { U(<<>>, 1), U(<<9, 0, 0, 3>>, 0) } \cup (IF Thorough THEN { U(<<101>>, 300) } ELSE {})
 UnitLists == { <<a>> : a \in UnitPool } \cup { <<a, b>> : a \in UnitPool, b \in UnitPool }
              \cup { <<a, b, c>> : a \in UnitPool3, b \in UnitPool3, c \in UnitPool3 }
-ScsOf(n) == [1..n -> {3, 4}]
+\* start codes of 3 and 4 bytes, and longer zero runs before the 01 (zero_byte / trailing_zero_8bits of Annex B.1 between units)
+ScsOf(n) == [1..n -> IF Thorough THEN {3, 4, 5, 6} ELSE {3, 4, 6}]
 Tzs == IF Thorough THEN {0, 1, 2, 3} ELSE {0, 2}
 NalScen == { [k |-> "nal", units |-> us, scs |-> s, tz |-> z] : us \in UnitLists, s \in UNION { ScsOf(n) : n \in 1..3 }, z \in Tzs }
 AllFour(s) == \A i \in DOMAIN s : s[i] = 4
